@@ -299,7 +299,9 @@ func c16StraceUnit(in c16Input) Unit {
 		in.prepareDir()
 		w, err := c16Trace(self, arg)
 		if err != nil {
-			c.R.HarnessErr = err.Error()
+			// no ptrace in this environment: the shim units alone decide the property (DESIGN.md section 9);
+			// recorded as a cap, never as an alarm
+			c.Cap("real-crash part skipped, strace/ptrace unavailable: " + trunc(err.Error(), 120))
 			return
 		}
 		refb, _ := os.ReadFile(in.File)
